@@ -60,6 +60,14 @@ func runOne(e engine.Engine, c *simrt.Chooser, param int, o opts, stats *engine.
 				// engine converted it; report loudly.
 				buf := make([]byte, 1<<16)
 				n := runtime.Stack(buf, false)
+				if panicFromCode(string(buf[:n])) {
+					// engines that call a component directly (loader, workspace) run it
+					// on this goroutine: a panic raised in the code under test, or by a
+					// simulated lock on its behalf, is a crash of that code
+					ctx.Fail(&engine.Violation{Property: strings.ToUpper(e.Name()), Oracle: "invariant", Class: "crash",
+						Msg: fmt.Sprintf("panic in the code under test: %v\n%s", r, firstFrames(string(buf[:n]), 12))})
+					return
+				}
 				fmt.Fprintf(os.Stderr, "HARNESS PANIC in engine %s: %v\n%s\n", e.Name(), r, buf[:n])
 				os.Exit(2)
 			}
@@ -73,6 +81,51 @@ func runOne(e engine.Engine, c *simrt.Chooser, param int, o opts, stats *engine.
 		res.LogLines = log.Lines
 	}
 	return res
+}
+
+// panicFromCode reports whether the innermost frame of a recovered panic that
+// is neither the runtime's nor a simulated primitive's belongs to the code
+// under test (any package of the module outside the simulator).
+func panicFromCode(stack string) bool {
+	seenPanic := false
+	for _, l := range strings.Split(stack, "\n") {
+		if l == "" || l[0] == '\t' || strings.HasPrefix(l, "goroutine ") {
+			continue
+		}
+		if !seenPanic {
+			seenPanic = strings.HasPrefix(l, "panic(")
+			continue
+		}
+		switch {
+		case strings.HasPrefix(l, "runtime."), strings.HasPrefix(l, "panic("), strings.HasPrefix(l, "sync."), strings.HasPrefix(l, "internal/"):
+			continue
+		case strings.Contains(l, "/internal/verifsim/simsync."), strings.Contains(l, "/internal/verifsim/simrt.MapSeq"):
+			continue
+		}
+		return strings.HasPrefix(l, "github.com/juev/hledger-lsp/") && !strings.Contains(l, "/internal/verifsim/") && !strings.Contains(l, "/cmd/verifsim")
+	}
+	return false
+}
+
+func firstFrames(stack string, n int) string {
+	var out []string
+	seenPanic := false
+	for _, l := range strings.Split(stack, "\n") {
+		if !seenPanic {
+			seenPanic = strings.HasPrefix(l, "panic(")
+			continue
+		}
+		if l != "" && l[0] != '\t' {
+			if i := strings.LastIndex(l, "("); i > 0 {
+				l = l[:i]
+			}
+			out = append(out, l)
+			if len(out) == n {
+				break
+			}
+		}
+	}
+	return strings.Join(out, " <- ")
 }
 
 func main() {
